@@ -134,7 +134,8 @@ def _pieces_tile(ctx, clause, inp, r: Rectangle, pieces: list[Rectangle], mode: 
         if not (x0 >= rx0 - t and y0 >= ry0 - t and x1 <= rx1 + t and y1 <= ry1 + t):
             ctx.spec_fail(clause + ":piece-inside", inp, {"piece": rect_dict(p)}, size=len(pieces))
             return
-        if not (x1 - x0 > 0 and y1 - y0 > 0):
+        # float stream: a cut within an ulp of the border may leave a piece whose size rounds to 0 (rounding tie)
+        if not ((x1 - x0 > 0 and y1 - y0 > 0) if mode == "Q" else (x1 - x0 > -t and y1 - y0 > -t)):
             ctx.spec_fail(clause + ":piece-positive", inp, {"piece": rect_dict(p)}, size=len(pieces))
             return
         if (p.region, p.fixed, p.hard) != (r.region, r.fixed, r.hard):
@@ -249,7 +250,7 @@ def spec_on_impl(ctx: Ctx, op: str, a: Rectangle, b, mode: str, extra, inp) -> N
         lo, hi, other = (ax0, ax1, Fraction(a.shape.h)) if op == "xcut" else (ay0, ay1, Fraction(a.shape.w))
         got = a.x_cuttable(*extra) if op == "xcut" else a.y_cuttable(*extra)
         t = _tol(mode, lo, hi, x)
-        if got and not (lo < x < hi) and min(abs(x - lo), abs(x - hi)) > t:
+        if got and not (lo < x < hi) and (mode == "Q" or min(abs(x - lo), abs(x - hi)) > t):
             ctx.spec_fail(op[0] + "Cuttable_imp_strict_inside", inp, {"x": float(x)})
         if not got and lo < x < hi and x - lo > rho * other + t and hi - x > rho * other + t:
             ctx.spec_fail(op[0] + "Cuttable_of_no_sliver", inp, {"x": float(x)})
@@ -311,10 +312,15 @@ def one_case(ctx: Ctx, rng, mode: str, reqs, todo):
     elif op == "grid":
         extra = (rng.choice([0, 1, 1, 2, 3, 4, 5]), rng.choice([0, 1, 2, 2, 3, 4, 7]))
     inp = {"mode": mode, "op": op, "a": rect_dict(a), "b": rect_dict(b), "extra": extra, "family": fam}
-    impl = impl_op(op, a, b, mode, extra)
+    try:
+        impl = impl_op(op, a, b, mode, extra)
+        spec_on_impl(ctx, op, a, b, mode, extra, inp)
+    except Exception as ex:  # the operations are total on valid rectangles: any exception is a property failure
+        Rectangle.undefine_epsilon()
+        ctx.spec_fail("operation-raised", inp, {"exception": type(ex).__name__, "message": str(ex)[:200]})
+        return
     reqs.append(request(op, a, b, mode, extra))
     todo.append((op, a, b, mode, extra, inp, impl))
-    spec_on_impl(ctx, op, a, b, mode, extra, inp)
     nontrivial = not (op in ("ov", "inter", "overlap") and exact_overlap(a, b) == 0 and rng.random() < 0.7)
     ctx.case(mode, (op, inp["a"], inp["b"], extra), nontrivial, sample={"op": op, "mode": mode, "a": inp["a"], "b": inp["b"], "extra": extra, "impl": impl})
     ctx.count("op:" + op)
